@@ -28,6 +28,11 @@ CLAIMED = {
    note="trusted: the dense long-double product as reference; smoother fixed to SPAI-0 (the relaxation does not enter the level matrices); Galerkin check on levels with <=160 rows",
    technique="deterministic simulation: seeded rebuild histories with failing calls, recording/replaying policy seam, fresh-object reference model + dense Galerkin invariant",
    replay="./build/plain/c03 --replay {path}"),
+ "C08": dict(cat="exploration", ref="4 (C08)",
+   text="The clause this technique decides is 'for all thread counts that select either SpGEMM algorithm' and every static chunking: each kernel runs inside a simulated OpenMP world (nt 1..32, seeded schedule, dirtied heap) on rectangular / empty-row / unsorted inputs with integer entries and is compared exactly with a dense model; structural invariants (monotone ptr, in-range columns, no duplicates for sorted inputs); Gershgorin >= spectral radius and power estimate <= largest singular value via Eigen. Sampling of inputs and thread counts, not the exhaustive small-pattern enumeration the statement also mentions.",
+   note="trusted: dense map-based model, Eigen eigen/singular values (n<=60); thread counts above the core count exist only in the simulated runtime",
+   technique="deterministic simulation: kernels under simulated thread counts/schedules (both SpGEMM paths) against an exact dense reference model",
+   replay="./build/plain/c08 --replay {path}"),
 }
 NA_PURE = {
  "C04": "pure function of (matrix, parameters): aggregation is a serial greedy loop, its parallel loops are statically partitioned without reductions; no schedule, fault or history can change the result (thread-count independence of the operators is exercised under C09)",
